@@ -211,19 +211,37 @@ class Facts:
             size = os.path.getsize(os.path.join(self.dir, f))
             if crate not in best or size > best[crate][0]:
                 best[crate] = (size, f)
+        import marshal
         for crate, (_, f) in sorted(best.items()):
             full = os.path.join(self.dir, f.replace(".light.", ".full."))
-            with open(os.path.join(self.dir, f)) as fh:
-                for line in fh:
-                    d = json.loads(line)
-                    if "fn" in d:
-                        self.fns[d["fn"]] = Fn(d, full)
-                    elif "enum" in d:
-                        self.enums[d["enum"]] = {int(v): n for v, n in d["variants"]}
-                    elif "const" in d:
-                        self.consts[d["const"]] = int(d["value"])
-                    elif "meta" in d:
-                        self.meta[d["meta"]] = d
+            lp = os.path.join(self.dir, f)
+            mp = lp + ".marshal"
+            recs = None
+            if os.path.exists(mp) and os.path.getmtime(mp) >= os.path.getmtime(lp):
+                try:
+                    with open(mp, "rb") as fh:
+                        recs = marshal.load(fh)
+                except Exception:
+                    recs = None
+            if recs is None:
+                with open(lp) as fh:
+                    recs = [json.loads(line) for line in fh]
+                try:
+                    tmp = mp + f".{os.getpid()}"
+                    with open(tmp, "wb") as fh:
+                        marshal.dump(recs, fh)
+                    os.replace(tmp, mp)
+                except OSError:
+                    pass
+            for d in recs:
+                if "fn" in d:
+                    self.fns[d["fn"]] = Fn(d, full)
+                elif "enum" in d:
+                    self.enums[d["enum"]] = {int(v): n for v, n in d["variants"]}
+                elif "const" in d:
+                    self.consts[d["const"]] = int(d["value"])
+                elif "meta" in d:
+                    self.meta[d["meta"]] = d
         for crate, floor in floors.items():
             n = self.meta.get(crate, {}).get("fns", 0)
             if n < floor:
